@@ -34,6 +34,11 @@ def gen_cases(tier, seed):
             for init_vd in (0.0, 4.5):
                 cases.append(dict(part='integrator', capacity=cap, wa=False, kind=kind,
                                   init_vd=init_vd, max_dev=dev, set_ops=['Sa', 'Sb', 'Sc', 'Sd']))
+    # unobserved histories (see C02): nothing is read between the calls
+    for cap in (2, 4):
+        for init_vd in (0.0, 4.5):
+            cases.append(dict(part='integrator', blind=True, capacity=cap, wa=False, kind='vertical', init_vd=init_vd,
+                              max_dev=1 if tier == 'quick' else 2, set_ops=['Sa', 'Sb', 'Sc', 'Sd']))
     # filter part
     m = 1 if tier == 'quick' else 2
     for pattern in ('uniform', 'gap', 'irregular'):
